@@ -100,7 +100,8 @@ def shared_lists(a, b, deep):
 
 def identity_facts(rng, cls):
     """the in-place / rebind facts of the heap model (append_keeps_item_list, delitem_rebinds_item_list,
-    setitem_existing_rebinds_values, popLast_keeps_item_list, extend_keeps_item_list, clear_rebinds_item_list) observed on a real object -> list of complaints"""
+    setitem_existing_rebinds_values, popLast_keeps_item_list, extend_keeps_item_list, clear_rebinds_item_list, insert_keeps_item_list,
+    insert_existing_rebinds_values) observed on a real object -> list of complaints"""
     out = []
     m = build(rng, cls)
     m.append("k1", 1); m.append("k2", 2); m.append("k1", 3)
@@ -126,6 +127,11 @@ def identity_facts(rng, cls):
     m.extend([("k1", 5), ("k3", 6)])
     if items() is not i0:
         out.append("extend() rebinds the item list (the model appends in place)")
+    # insert_keeps_item_list, insert_existing_rebinds_values
+    i0 = items(); v0 = dict.__getitem__(m, "k1")
+    m.insert(1, [("k1", 7), ("k4", 8)])
+    if items() is not i0 or dict.__getitem__(m, "k1") is v0:
+        out.append("insert(): the model edits the item list in place and stores a fresh value list for a present key")
     i0 = items()
     m.clear()
     if items() is i0 or len(dict.keys(m)) != 0:
@@ -148,7 +154,8 @@ def mutate_top(rng, m):
             with warnings.catch_warnings():
                 warnings.simplefilter("ignore")
                 m.discard(m[0][0] if len(m) and rng.random() < 0.7 else "absent")
-        else: m.insert(0, "first", 0)
+        elif r < 0.96 and len(m): m.popall(m[rng.randrange(len(m))][0])
+        else: m.insert(rng.randrange(-2, len(m) + 2), [("first", 0), (m[-1][0] if len(m) else "yy", 1)])
     except Exception:
         pass
 
